@@ -795,7 +795,64 @@ def replay_deep(rp):
     return dict(reproduced=False, tried=len(samples.DEEP_SRC))
 
 
-REPLAY = {"kind": replay_kind, "slot": replay_slot, "table": replay_table, "quote": replay_quote, "deep": replay_deep,
+# ----------------------------------------------------------------------------------------
+# bounded stand-in for the parameter list of a lambda: every signature shape up to a bound,
+# through the REAL unparser, natively.  The symbolic proof (kind:Lambda) covers all lengths
+# for the two alignments of defaults it is set up for; this covers EVERY alignment of
+# defaults with positional-only / ordinary parameters for small lengths, and is what turns a
+# change that leaves the symbolic run outside the engine's subset into a concrete witness.
+# Never counted as proved.
+
+
+def lambda_shapes(max_pos=2, max_args=2, max_kw=2):
+    import itertools as IT
+    for p, a, k in IT.product(range(max_pos + 1), range(max_args + 1), range(max_kw + 1)):
+        for d in range(p + a + 1):
+            for va, ka in IT.product((False, True), repeat=2):
+                for mask in IT.product((False, True), repeat=k):
+                    yield (p, a, d, va, k, mask, ka)
+
+
+def lambda_of_shape(sh):
+    p, a, d, va, k, mask, ka = sh
+    mk = lambda n: ast.arg(arg=n, annotation=None)
+    args = ast.arguments(
+        posonlyargs=[mk(f"p{i}") for i in range(p)], args=[mk(f"a{i}") for i in range(a)],
+        vararg=mk("va") if va else None, kwonlyargs=[mk(f"k{i}") for i in range(k)],
+        kw_defaults=[ast.Constant(value=f"K{i}") if m else None for i, m in enumerate(mask)],
+        kwarg=mk("ka") if ka else None, defaults=[ast.Constant(value=f"D{i}") for i in range(d)])
+    return ast.Lambda(args=args, body=ast.Constant(value=0))
+
+
+def g_lambda_signatures_bounded(R, tier):
+    from spec import samples
+    bound = (2, 2, 2) if tier == "quick" else (3, 3, 3)
+    bad, n = None, 0
+    for sh in lambda_shapes(*bound):
+        n += 1
+        ok, text, why = samples.roundtrip(_native_unparse(), lambda_of_shape(sh))
+        if not ok:
+            bad = (sh, text, why)
+            break
+    R.bounded("bounded/every-lambda-signature-shape-round-trips", bad is None,
+              f"{n} shapes (positional-only <= {bound[0]}, ordinary <= {bound[1]}, keyword-only <= {bound[2]}, every count of defaults, every None mask, */** present or not)"
+              if bad is None else f"shape (posonly, args, defaults, vararg, kwonly, kw-default mask, kwarg) = {bad[0]}: {bad[1]!r}: {bad[2][:300]}",
+              replay=dict(kind="lambda-shape", shape=list(bad[0]) if bad else None))
+
+
+def replay_lambda_shape(rp):
+    from spec import samples
+    shapes = [tuple(tuple(x) if isinstance(x, list) else x for x in rp["shape"])] if rp.get("shape") else list(lambda_shapes(3, 3, 2))
+    for sh in shapes:
+        ok, text, why = samples.roundtrip(_native_unparse(), lambda_of_shape(sh))
+        if not ok:
+            return dict(reproduced=True, input=ast.unparse(lambda_of_shape(sh)), output=text, why=why)
+    return dict(reproduced=False)
+
+
+GROUPS["bounded:lambda-signatures"] = g_lambda_signatures_bounded
+
+REPLAY = {"lambda-shape": replay_lambda_shape, "kind": replay_kind, "slot": replay_slot, "table": replay_table, "quote": replay_quote, "deep": replay_deep,
           "fstr": _c04r("fstr"), "fstr-backslash": _c04r("fstr-backslash"), "nest": _c04r("nest"), "const": _c04r("const")}
 
 
